@@ -9,6 +9,7 @@ import (
 	"path/filepath"
 	"reflect"
 	"slices"
+	"sort"
 	"strconv"
 	"sync"
 	"time"
@@ -820,9 +821,21 @@ func (p PathParam) DelParams(key ...string) {
 }
 
 // VisitAll iterates through all path parameters, calling f for each.
+// The parameters are visited longest key first (equally long keys in lexical order), so that the
+// substitution of ":idx" is never pre-empted by ":id" and the resulting URL does not depend on map order.
 func (p PathParam) VisitAll(f func(key, val string)) {
-	for k, v := range p {
-		f(k, v)
+	keys := make([]string, 0, len(p))
+	for k := range p {
+		keys = append(keys, k)
+	}
+	sort.Slice(keys, func(i, j int) bool {
+		if len(keys[i]) != len(keys[j]) {
+			return len(keys[i]) > len(keys[j])
+		}
+		return keys[i] < keys[j]
+	})
+	for _, k := range keys {
+		f(k, p[k])
 	}
 }
 
